@@ -61,6 +61,7 @@ type Contract struct {
 // GhostSet: "ghost-set name[idx] = expr" - the function, by definition, extends ghost state;
 // expr and idx are evaluated in the entry state. It is ghost code executed at the return.
 type GhostSet struct {
+	Post bool // index and value are evaluated in the return state (may mention results)
 	Name string
 	Idx  Expr
 	Val  Clause
@@ -149,7 +150,7 @@ var clauseKeywords = map[string]bool{
 	"props": true, "arith": true, "flags": true, "requires": true, "ensures": true, "modifies": true,
 	"loop": true, "track": true, "panics": true, "statement": true, "refines": true, "ghost-set": true, "params": true, "assert": true, "lemma": true,
 	"guarded": true, "onceinit": true, "nolock": true,
-	"theory": true, "sort": true, "const": true, "fun": true, "smt": true, "macro": true, "ghost-at": true, "trusted-axiom": true, "typeinv": true, "assumes": true,
+	"theory": true, "sort": true, "const": true, "fun": true, "smt": true, "macro": true, "ghost-at": true, "ghost-set-post": true, "trusted-axiom": true, "typeinv": true, "assumes": true,
 }
 
 func parseContracts(srcs []contractSource) (*Contracts, error) {
@@ -390,7 +391,7 @@ func parseContracts(srcs []contractSource) (*Contracts, error) {
 					for _, f := range strings.FieldsFunc(rest, func(r rune) bool { return r == ',' || r == ' ' || r == ';' }) {
 						cur.Flags[f] = true
 					}
-				case "ghost-set":
+				case "ghost-set", "ghost-set-post":
 					eq := strings.Index(rest, "=")
 					lb := strings.Index(rest, "[")
 					rb := strings.Index(rest, "]")
@@ -405,7 +406,7 @@ func parseContracts(srcs []contractSource) (*Contracts, error) {
 					if err != nil {
 						return nil, err
 					}
-					cur.GhostSets = append(cur.GhostSets, GhostSet{Name: strings.TrimSpace(rest[:lb]), Idx: ie, Val: c})
+					cur.GhostSets = append(cur.GhostSets, GhostSet{Post: kw == "ghost-set-post", Name: strings.TrimSpace(rest[:lb]), Idx: ie, Val: c})
 				case "ghost-at":
 					// ghost-at call <n> of <callee> before|after name[idx] = expr
 					fs := strings.Fields(rest)
